@@ -190,6 +190,14 @@ func checkC02(c *Ctx) {
 	}
 	fam := c06Family(2, c.pick(5, 1))
 	progs = append(progs, fam...)
+	// the hand-built families of the other checks (calls and dropped results, named types, nested literals, big frames,
+	// stale slots, imported package variables, range loops that change their slice)
+	progs = append(progs, c09TypedDecls(), c09VariadicTypes(), c09NamedTypes(false), c09NamedTypes(true))
+	progs = append(progs, c08Extra()...)
+	progs = append(progs, c11RangePrograms(r, c.pick(20, 200))...)
+	for i, n := range bigFrameSizes {
+		progs = append(progs, bigFrameProgram(n), staleSlotProgram(r, fmt.Sprintf("c02-slots-%d", i)), pkgVarProgram(r, fmt.Sprintf("c02-pkgvar-%d", i)))
+	}
 	b := runMiniGoSpec(c, progs, 8, "c02")
 	for _, p := range progs {
 		src := b.Sources[p.ID]
